@@ -1,6 +1,7 @@
 package main
 
 import (
+	"go/token"
 	"fmt"
 	"sort"
 	"strings"
@@ -410,6 +411,7 @@ func (cx *Ctx) checkErrDiscipline(r *Report, fns []*ssa.Function) int {
 		if !hasFallible {
 			continue
 		}
+		cx.checkResultsUsedAfterErrTest(r, fn)
 		res := fn.Signature.Results()
 		key := w.FuncKey(fn)
 		if res.Len() > 0 && isErrorType(res.At(res.Len()-1).Type()) {
@@ -531,5 +533,60 @@ func (cx *Ctx) checkRecoverReports(r *Report, fns map[*ssa.Function]bool) {
 	}
 	if n == 0 {
 		r.Ok("R-ERR", "#recover", "", "no fallible function on the handlers' paths recovers from panics")
+	}
+}
+
+// checkResultsUsedAfterErrTest: the other results of a fallible call are dereferenced (method call on, field access
+// through, load through) only where the error was found nil. Testing the result itself instead (`if req != nil`) does
+// not do: an interface result can hold a typed nil pointer, and a record handed out together with an error is not
+// one to act on.
+func (cx *Ctx) checkResultsUsedAfterErrTest(r *Report, fn *ssa.Function) {
+	w, fx := cx.W, cx.Fx
+	for _, c := range callsIn(fn) {
+		call, ok := c.(*ssa.Call)
+		if !ok {
+			continue
+		}
+		e, has, _ := errResult(call)
+		if !has || e == nil || !cx.errDisciplined(call) {
+			continue
+		}
+		if storageMethod(call) == "" {
+			if g := calleeOf(call); g == nil || g.Pkg == nil || !isModulePath(g.Pkg.Pkg.Path()) {
+				continue
+			}
+		}
+		nilSides := fx.errNilSides(e)
+		if len(nilSides) == 0 {
+			continue // untested errors are reported by the other R-ERR rules
+		}
+		for _, ref := range nonDebugRefs(call) {
+			ex, isEx := ref.(*ssa.Extract)
+			if !isEx || ex == e || !isPtrLike(ex.Type()) {
+				continue
+			}
+			for _, use := range nonDebugRefs(ex) {
+				deref := false
+				switch u := use.(type) {
+				case ssa.CallInstruction:
+					deref = u.Common().IsInvoke() && u.Common().Value == ssa.Value(ex)
+				case *ssa.FieldAddr:
+					deref = u.X == ssa.Value(ex)
+				case *ssa.UnOp:
+					deref = u.Op == token.MUL && u.X == ssa.Value(ex)
+				}
+				if !deref {
+					continue
+				}
+				ub := use.Block()
+				okDom := false
+				for _, nb := range nilSides {
+					if len(nb.Preds) == 1 && (nb == ub || nb.Dominates(ub)) {
+						okDom = true
+					}
+				}
+				r.Check(okDom, "R-ERR", w.FuncKey(fn)+":"+shortCallee(calleeName(call))+":result-before-error-test", w.InstrPos(use), "used only where the error was found nil", "a result of "+shortCallee(calleeName(call))+" is dereferenced at "+w.InstrPos(use)+" where its error has not been found nil: what comes with an error (a typed nil, an expired record) is acted on")
+			}
+		}
 	}
 }
